@@ -80,6 +80,153 @@ fn jstr(s: &str) -> String {
     o
 }
 
+// ---------------------------------------------------------------------------------------------
+// cfg: the control-flow graph of every small function body (C12, BOUNDED stand-in)
+use program_structure::cfg::{Cfg, IntoCfg};
+use program_structure::constants::Curve;
+use program_structure::ir::Statement as IrStatement;
+use program_structure::report::ReportCollection;
+
+#[derive(Clone, Debug)]
+enum S { Simple, If(Vec<S>), IfElse(Vec<S>, Vec<S>), While(Vec<S>), IfBare(Box<S>), WhileBare(Box<S>) }
+
+fn size(s: &S) -> usize {
+    match s { S::Simple => 1, S::If(b) | S::While(b) => 1 + b.iter().map(size).sum::<usize>(), S::IfElse(a, b) => 1 + a.iter().map(size).sum::<usize>() + b.iter().map(size).sum::<usize>(), S::IfBare(x) | S::WhileBare(x) => 1 + size(x) }
+}
+
+/// all statement lists of total size n
+fn lists(n: usize, memo: &mut std::collections::HashMap<usize, Vec<Vec<S>>>) -> Vec<Vec<S>> {
+    if let Some(v) = memo.get(&n) { return v.clone(); }
+    let mut out = vec![];
+    if n == 0 { out.push(vec![]); }
+    else {
+        for first in 1..=n {
+            for head in stmts(first, memo) {
+                for tail in lists(n - first, memo) {
+                    let mut l = vec![head.clone()];
+                    l.extend(tail);
+                    out.push(l);
+                }
+            }
+        }
+    }
+    memo.insert(n, out.clone());
+    out
+}
+/// all single statements of size n
+fn stmts(n: usize, memo: &mut std::collections::HashMap<usize, Vec<Vec<S>>>) -> Vec<S> {
+    let mut out = vec![];
+    if n == 1 { out.push(S::Simple); }
+    if n >= 1 {
+        for b in lists(n - 1, memo) { out.push(S::If(b.clone())); out.push(S::While(b)); }
+        for a in 0..n { for x in lists(a, memo) { for y in lists(n - 1 - a, memo) { out.push(S::IfElse(x.clone(), y.clone())); } } }
+        if n >= 2 { for x in stmts(n - 1, memo) { if !matches!(x, S::IfBare(_) | S::If(_) | S::IfElse(..)) { out.push(S::IfBare(Box::new(x.clone()))); } out.push(S::WhileBare(Box::new(x))); } }
+    }
+    out
+}
+
+/// source text; simple statements and conditions carry the loop depth they are written at: `y += 100 + d`, `x < 1000 + d`
+fn render(l: &[S], d: usize, out: &mut String) {
+    for s in l {
+        match s {
+            S::Simple => out.push_str(&format!("y += {};\n", 100 + d)),
+            S::If(b) => { out.push_str(&format!("if (x < {}) {{\n", 1000 + d)); render(b, d, out); out.push_str("}\n"); }
+            S::IfElse(a, b) => { out.push_str(&format!("if (x < {}) {{\n", 1000 + d)); render(a, d, out); out.push_str("} else {\n"); render(b, d, out); out.push_str("}\n"); }
+            S::While(b) => { out.push_str(&format!("while (x < {}) {{\n", 1000 + d)); render(b, d + 1, out); out.push_str("}\n"); }
+            S::IfBare(x) => { out.push_str(&format!("if (x < {})\n", 1000 + d)); render(std::slice::from_ref(&**x), d, out); }
+            S::WhileBare(x) => { out.push_str(&format!("while (x < {})\n", 1000 + d)); render(std::slice::from_ref(&**x), d + 1, out); }
+        }
+    }
+}
+
+fn numbers_in(text: &str) -> Vec<usize> {
+    let mut v = vec![]; let mut cur = String::new();
+    for c in text.chars() { if c.is_ascii_digit() { cur.push(c); } else { if !cur.is_empty() { v.push(cur.parse().unwrap_or(0)); cur.clear(); } } }
+    if !cur.is_empty() { v.push(cur.parse().unwrap_or(0)); }
+    v
+}
+
+/// None = well formed; Some((clause, what))
+fn check_cfg(cfg: &Cfg) -> Option<(String, String)> {
+    let n = cfg.len();
+    let blocks: Vec<_> = cfg.iter().collect();
+    for (k, b) in blocks.iter().enumerate() {
+        if b.index() != k { return Some(("I1".into(), format!("block at position {} has index {}", k, b.index()))); }
+        for &p in b.predecessors() { if p >= n || !blocks[p].successors().contains(&k) { return Some(("I2".into(), format!("{} is a predecessor of {} but {} is not a successor of {}", p, k, k, p))); } }
+        for &s in b.successors() { if s >= n || !blocks[s].predecessors().contains(&k) { return Some(("I2".into(), format!("{} is a successor of {} but {} is not a predecessor of {}", s, k, k, s))); } }
+        let stmts = b.statements();
+        let mut has_branch = false;
+        for (i, st) in stmts.iter().enumerate() {
+            if let IrStatement::IfThenElse { true_index, false_index, .. } = st {
+                if i + 1 != stmts.len() { return Some(("I5".into(), format!("block {}: a branch statement is not the last statement", k))); }
+                has_branch = true;
+                if *true_index >= n || !b.successors().contains(true_index) { return Some(("I6".into(), format!("block {}: true target {} is not an existing successor", k, true_index))); }
+                if let Some(f) = false_index { if *f >= n || !b.successors().contains(f) { return Some(("I6".into(), format!("block {}: false target {} is not an existing successor", k, f))); } }
+            }
+            // loop depth: the literal written into the statement encodes the depth it was written at
+            let text = format!("{}", st);
+            for v in numbers_in(&text) {
+                let d = if (100..200).contains(&v) { Some(v - 100) } else if (1000..1100).contains(&v) { Some(v - 1000) } else { None };
+                if let Some(d) = d { if d != b.loop_depth() { return Some(("I8".into(), format!("block {} has loop depth {} but holds `{}` written at depth {}", k, b.loop_depth(), text, d))); } }
+            }
+        }
+        let lim = if has_branch { 2 } else { 1 };
+        if b.successors().len() > lim { return Some(("I7".into(), format!("block {} has {} successors ({} allowed)", k, b.successors().len(), lim))); }
+    }
+    if !blocks[0].predecessors().is_empty() { return Some(("I3".into(), "the entry block has a predecessor".into())); }
+    // reachability
+    let mut seen = vec![false; n]; seen[0] = true; let mut st = vec![0usize];
+    while let Some(u) = st.pop() { for &v in blocks[u].successors() { if !seen[v] { seen[v] = true; st.push(v); } } }
+    if let Some(u) = seen.iter().position(|x| !x) { return Some(("I4".into(), format!("block {} is not reachable from the entry", u))); }
+    // dominance order: i dom j => i <= j   (dominators recomputed here by removal)
+    for d in 1..n {
+        let mut s2 = vec![false; n]; s2[0] = true; let mut st = vec![0usize];
+        while let Some(u) = st.pop() { for &v in blocks[u].successors() { if v != d && !s2[v] { s2[v] = true; st.push(v); } } }
+        for j in 0..n { if j != d && !s2[j] && d > j { return Some(("I9".into(), format!("block {} dominates block {} but has the larger index", d, j))); } }
+    }
+    None
+}
+
+fn cfg_bounded(tier: &str) {
+    let maxsize = if tier == "thorough" { 6 } else { 4 };
+    let mut memo = std::collections::HashMap::new();
+    let mut evals = 0u64; let mut nontrivial = 0u64; let mut skipped = 0u64;
+    let mut viol: Vec<String> = vec![]; let mut seen_ob: std::collections::BTreeSet<String> = Default::default();
+    let mut samples: Vec<String> = vec![];
+    for n in 0..=maxsize {
+        for l in lists(n, &mut memo) {
+            let mut body = String::new();
+            render(&l, 0, &mut body);
+            let src = format!("function f(x) {{\nvar y = 0;\n{}return y;\n}}\n", body);
+            evals += 1;
+            if body.contains("while") || body.contains("if") { nontrivial += 1; }
+            if evals % 1499 == 1 && samples.len() < 6 { samples.push(jstr(&src)); }
+            let r = catch_unwind(AssertUnwindSafe(|| {
+                let def = match parser::parse_definition(&src) { Some(d) => d, None => return Err(true) };
+                let mut reports = ReportCollection::new();
+                def.into_cfg(&Curve::default(), &mut reports).map_err(|_| false)
+            }));
+            let verdict = match r {
+                Err(_) => Some(("safety".to_string(), "into_cfg panicked".to_string())),
+                Ok(Err(true)) => { evals -= 1; skipped += 1; if body.contains("while") || body.contains("if") { nontrivial -= 1; } None } // the Circom grammar rejects this shape (e.g. a bare `if` without else as a loop body)
+                Ok(Err(false)) => Some(("lift".to_string(), "a body accepted by the parser did not lift to a CFG".to_string())),
+                Ok(Ok(cfg)) => check_cfg(&cfg),
+            };
+            if let Some((cl, what)) = verdict {
+                let ob = format!("cfg|build_basic_blocks|bounded|{}", cl);
+                if seen_ob.insert(ob.clone()) {
+                    viol.push(format!("{{\"unit\":\"cfg\",\"fn\":\"build_basic_blocks\",\"obligation\":{},\"input\":{},\"what\":{},\"replay\":\"replay_parser bounded-cfg\"}}", jstr(&ob), jstr(&src), jstr(&format!("{} — for\n{}", what, src))));
+                }
+            }
+        }
+    }
+    println!("{{\"unit\":\"cfg\",\"evaluations\":{},\"distinct_nontrivial\":{},\"exhaustive\":true,\"rule\":{},\"bound\":{},\"samples\":[{}],\"violations\":[{}]}}",
+        evals, nontrivial,
+        jstr("every function body built from simple statements, if, if-else, while, braced and bare bodies, empty blocks, parsed and lifted by the real code (parse_definition + into_cfg), checked against the C12 well-formedness clauses I1-I9 (index, mirrored edges, entry, reachability, branch last, targets, successor count, loop depth, dominance order); non-trivial = contains control flow; bodies are pairwise distinct"),
+        jstr(&format!("all statement lists with at most {} statement nodes (nesting unrestricted within that size); {} shapes rejected by the Circom grammar skipped", maxsize, skipped)),
+        samples.join(","), viol.join(","));
+}
+
 fn main() {
     std::panic::set_hook(Box::new(|_| {}));
     let args: Vec<String> = std::env::args().collect();
@@ -135,6 +282,10 @@ fn main() {
                 jstr("the real compiled preprocess vs the reference lexer on every string; non-trivial = contains a comment opener; enumerated strings are pairwise distinct"),
                 jstr(&format!("all strings of length <= {} over {{'/','*','a','\\n','é'}} (exhaustive), plus {} seeded random strings of length 8..48 over a wider alphabet (quotes, CR, 3- and 4-byte characters)", maxlen, nrand)),
                 samples.join(","), viol.join(","));
+        }
+        Some("bounded-cfg") => {
+            let tier = args.get(2).map(|s| s.as_str()).unwrap_or("quick");
+            cfg_bounded(tier);
         }
         Some("replay") => {
             let t = unhex(&args[2]);
